@@ -270,9 +270,15 @@ def contention_records(draw):
         g = draw(st.integers(2, len(z) - 3))
         removed = {g}
     et = [0.125]
+    fine = None
+    if draw(st.integers(0, 2)) == 0:
+        removed = set()
+        fine = sorted(set(draw(st.lists(st.integers(1, len(z) - 3),
+                                        min_size=1, max_size=2))))
     return gen_records.assemble(
         dt, t0, tz, rain, z, 0, [], [], removed, et, s, j,
-        {'gen': 'gen-contention', 'thr_units': thr_units})
+        {'gen': 'gen-contention', 'thr_units': thr_units,
+         'fine_removed': fine})
 
 
 @st.composite
